@@ -1,6 +1,14 @@
 /-
 Lemmas.Agree — spine lemma S3: the check path computes exactly what the parse path computes,
 with the value forgotten (cursor, stack and tracker identical, on success and on failure).
+
+Two families of lemmas:
+* `*Loop_forget`: congruence of a PARSE-copy loop in its element function(s) under `Res.forget`;
+* `*LoopC_eq`: the CHECK-copy loop (`skipLoopC`, `seqLoopC`, `choiceLoopC`, `repLoopC`,
+  `arrayLoopC`, `repUnitC`; separately written definitions in `Model/Run.lean`) equals the
+  parse-copy loop with the values forgotten, whenever the element functions agree.  For
+  `repLoopC` this includes the argument that the two different tests after the `RepeatMinMax`
+  loop (`MAX < MIN` on the check path, `vec.len() < MIN` on the parse path) decide alike.
 -/
 import PestTyped.Model.Run
 namespace PestTyped
@@ -31,6 +39,57 @@ theorem forget_eq_cases {σ α β} {rc : Res σ α} {rp : Res σ β} (h : rc.for
   · exact Or.inl ⟨rfl, rfl⟩
   · subst h; exact Or.inr (Or.inl ⟨_, rfl, rfl⟩)
   · obtain ⟨rfl, rfl⟩ := h; exact Or.inr (Or.inr ⟨_, _, _, _, rfl, rfl⟩)
+
+/-! ### the code after the repetition loop (`repDone`, `repDoneC`): elementary facts -/
+
+/-- `repDone` either fails with the state unchanged or succeeds with cursor and state unchanged
+and the collected values in order. -/
+theorem repDone_cases {α} (min : Nat) (max : Option Nat) (i : Inp) (m : M) (acc : List α) :
+    repDone min max i m acc = .fail m ∨ repDone min max i m acc = .ok i m acc.reverse := by
+  unfold repDone
+  cases max with
+  | none => exact Or.inr rfl
+  | some mx => simp only []; split; exact Or.inl rfl; exact Or.inr rfl
+
+theorem repDone_ok {α} {min : Nat} {max : Option Nat} {i : Inp} {m : M} {acc : List α} {i' m' a}
+    (h : repDone min max i m acc = .ok i' m' a) : i' = i ∧ m' = m ∧ a = acc.reverse := by
+  rcases repDone_cases min max i m acc with h1 | h1 <;> rw [h1] at h
+  · cases h
+  · injection h with h1 h2 h3; exact ⟨h1.symm, h2.symm, h3.symm⟩
+
+theorem repDone_fail {α} {min : Nat} {max : Option Nat} {i : Inp} {m : M} {acc : List α} {m'}
+    (h : repDone min max i m acc = .fail m') : m' = m := by
+  rcases repDone_cases min max i m acc with h1 | h1 <;> rw [h1] at h
+  · injection h with h1; exact h1.symm
+  · cases h
+
+theorem repDone_ne_oof {α} (min : Nat) (max : Option Nat) (i : Inp) (m : M) (acc : List α) :
+    repDone min max i m acc ≠ .oof := by
+  rcases repDone_cases min max i m acc with h1 | h1 <;> rw [h1] <;> intro h <;> cases h
+
+/-- With `vec.len() = i` (the invariant of the Rust loop) the test after the loop is a test on
+the iteration counter. -/
+theorem repDone_eq_of_length {α} (min : Nat) (max : Option Nat) (i : Inp) (m : M) (acc : List α) :
+    repDone min max i m acc =
+      if max.isSome ∧ acc.length < min then .fail m else .ok i m acc.reverse := by
+  unfold repDone
+  cases max with
+  | none => simp
+  | some mx => simp
+
+/-- After `break` (`MIN ≤ i`, `vec.len() = i`) the test after the loop never fires. -/
+theorem repDone_of_le {α} (min : Nat) (max : Option Nat) (i : Inp) (m : M) (acc : List α)
+    (h : min ≤ acc.length) : repDone min max i m acc = .ok i m acc.reverse := by
+  rw [repDone_eq_of_length, if_neg (by omega)]
+
+theorem repDone_min0 {α} (max : Option Nat) (i : Inp) (m : M) (acc : List α) :
+    repDone 0 max i m acc = .ok i m acc.reverse := repDone_of_le 0 max i m acc (Nat.zero_le _)
+
+theorem repDone_none {α} (min : Nat) (i : Inp) (m : M) (acc : List α) :
+    repDone min none i m acc = .ok i m acc.reverse := rfl
+
+theorem repDone_some {α} (min mx : Nat) (i : Inp) (m : M) (acc : List α) :
+    repDone min (some mx) i m acc = if acc.length < min then .fail m else .ok i m acc.reverse := rfl
 
 theorem skipLoop_forget {α β} (fc : Inp → M → R α) (fp : Inp → M → R β)
     (h : ∀ i m, (fc i m).forget = (fp i m).forget) :
@@ -82,23 +141,35 @@ theorem choiceLoop_forget {α α'} (fc : Node → Inp → M → R α) (fp : Node
     · rw [hc, hp]; simp only [restoreOnNone]; exact ih _ _ _
     · rw [hc, hp]; rfl
 
+theorem repDone_forget {α α'} (min : Nat) (max : Option Nat) (i : Inp) (m : M)
+    (accc : List α) (accp : List α') (hlen : accc.length = accp.length) :
+    (repDone min max i m accc).forget = (repDone min max i m accp).forget := by
+  unfold repDone
+  cases max with
+  | none => rfl
+  | some mx => simp only [hlen]; split <;> rfl
+
 theorem repLoop_forget {α α'} (uc : Nat → Inp → M → R α) (up : Nat → Inp → M → R α')
     (hu : ∀ idx i m, (uc idx i m).forget = (up idx i m).forget) (min : Nat) (max : Option Nat) :
-    ∀ budget idx i m accc accp,
+    ∀ budget idx i m accc accp, accc.length = accp.length →
       (repLoop uc min max budget idx i m accc).forget = (repLoop up min max budget idx i m accp).forget := by
   intro budget
   induction budget with
   | zero => intros; rfl
   | succ b ih =>
-    intro idx i m accc accp
+    intro idx i m accc accp hlen
     unfold repLoop
     by_cases hmax : max = some idx
-    · simp only [hmax, if_true]; split <;> rfl
+    · simp only [hmax, if_true]; exact repDone_forget _ _ _ _ _ _ hlen
     · simp only [hmax, if_false]
       rcases forget_eq_cases (hu idx i m) with ⟨hc, hp⟩ | ⟨m', hc, hp⟩ | ⟨i', m', a, b, hc, hp⟩
       · rw [hc, hp]; rfl
-      · rw [hc, hp]; simp only [restoreOnNone]; split <;> rfl
-      · rw [hc, hp]; simp only [restoreOnNone]; exact ih _ _ _ _ _
+      · rw [hc, hp]; simp only [restoreOnNone]
+        split
+        · rfl
+        · exact repDone_forget _ _ _ _ _ _ hlen
+      · rw [hc, hp]; simp only [restoreOnNone]
+        exact ih _ _ _ _ _ (by simp only [List.length_cons, hlen])
 
 theorem arrayLoop_forget {α α'} (fc : Inp → M → R α) (fp : Inp → M → R α')
     (hf : ∀ i m, (fc i m).forget = (fp i m).forget) :
@@ -113,5 +184,220 @@ theorem arrayLoop_forget {α α'} (fc : Inp → M → R α) (fp : Inp → M → 
     · rw [hc, hp]; rfl
     · rw [hc, hp]; rfl
     · rw [hc, hp]; exact ih _ _ _ _
+
+/-! ### the check copies of the loops against the parse copies -/
+
+theorem skipLoopC_eq {α} (fc : Inp → M → R Unit) (fp : Inp → M → R α)
+    (h : ∀ i m, fc i m = (fp i m).forget) :
+    ∀ k i m acc, skipLoopC fc k i m = (skipLoop fp k i m acc).forget := by
+  intro k
+  induction k with
+  | zero => intros; rfl
+  | succ k ih =>
+    intro i m acc
+    unfold skipLoopC skipLoop
+    rw [h]
+    cases fp i m with
+    | oof => rfl
+    | fail m' => rfl
+    | ok i' m' a => exact ih _ _ _
+
+theorem seqLoopC_eq {α β} (fc : Node → Inp → M → R Unit) (fp : Node → Inp → M → R α)
+    (skc : Inp → M → R Unit) (skp : Inp → M → R (List β)) (mkp : List β → α → α)
+    (hf : ∀ n i m, fc n i m = (fp n i m).forget)
+    (hs : ∀ i m, skc i m = (skp i m).forget) :
+    ∀ ns i m acc, seqLoopC fc skc ns i m = (seqLoop fp skp mkp ns i m acc).forget := by
+  intro ns
+  induction ns with
+  | nil => intros; rfl
+  | cons n ns ih =>
+    intro i m acc
+    unfold seqLoopC seqLoop
+    rw [hs]
+    cases skp i m with
+    | oof => rfl
+    | fail m' => rfl
+    | ok i' m' sk =>
+      simp only [Res.forget_ok]
+      rw [hf]
+      cases fp n i' m' with
+      | oof => rfl
+      | fail m'' => rfl
+      | ok i'' m'' a => exact ih _ _ _
+
+/-- The check copy keeps no branch index; the parse copy counts from any `k`. -/
+theorem choiceLoopC_eq {α} (fc : Node → Inp → M → R Unit) (fp : Node → Inp → M → R α)
+    (hf : ∀ n i m, fc n i m = (fp n i m).forget) :
+    ∀ ns k i m, choiceLoopC fc ns i m = (choiceLoop fp ns k i m).forget := by
+  intro ns
+  induction ns with
+  | nil => intros; rfl
+  | cons n ns ih =>
+    intro k i m
+    unfold choiceLoopC choiceLoop
+    rw [hf]
+    cases fp n i m with
+    | oof => rfl
+    | fail m' => simp only [Res.forget_fail, restoreOnNone]; exact ih _ _ _
+    | ok i' m' a => rfl
+
+/-- The `[T; N]` loop collects exactly `N` more values. -/
+theorem arrayLoop_length_acc {α} (f : Inp → M → R α) :
+    ∀ k i m acc i' m' vs, arrayLoop f k i m acc = .ok i' m' vs → vs.length = acc.length + k := by
+  intro k
+  induction k with
+  | zero =>
+    intro i m acc i' m' vs h
+    simp only [arrayLoop] at h
+    injection h with _ _ h3
+    rw [← h3, List.length_reverse]; rfl
+  | succ k ih =>
+    intro i m acc i' m' vs h
+    unfold arrayLoop at h
+    split at h
+    · cases h
+    · cases h
+    · have := ih _ _ _ _ _ _ h
+      simp only [List.length_cons] at this
+      omega
+
+/-- "Actually impossible": after the `[T; N]` loop `vec.try_into()` never fails. -/
+theorem arrayTryInto_arrayLoop {α} (f : Inp → M → R α) (k : Nat) (i : Inp) (m : M) :
+    arrayTryInto k (arrayLoop f k i m []) = arrayLoop f k i m [] := by
+  cases h : arrayLoop f k i m [] with
+  | oof => rfl
+  | fail m' => rfl
+  | ok i' m' vs =>
+    have := arrayLoop_length_acc f k i m [] i' m' vs h
+    simp only [arrayTryInto, List.length_nil, Nat.zero_add] at this ⊢
+    rw [if_pos this]
+
+theorem arrayLoopC_eq {α} (fc : Inp → M → R Unit) (fp : Inp → M → R α)
+    (hf : ∀ i m, fc i m = (fp i m).forget) :
+    ∀ k i m acc, arrayLoopC fc k i m = (arrayLoop fp k i m acc).forget := by
+  intro k
+  induction k with
+  | zero => intros; rfl
+  | succ k ih =>
+    intro i m acc
+    unfold arrayLoopC arrayLoop
+    rw [hf]
+    cases fp i m with
+    | oof => rfl
+    | fail m' => rfl
+    | ok i' m' a => exact ih _ _ _
+
+/-- `[T; N]`, the whole of the two Rust functions: the check copy (loop only) against the parse
+copy (loop, then `vec.try_into()`). -/
+theorem arrayLoopC_eq_tryInto {α} (fc : Inp → M → R Unit) (fp : Inp → M → R α)
+    (hf : ∀ i m, fc i m = (fp i m).forget) (k : Nat) (i : Inp) (m : M) :
+    arrayLoopC fc k i m = (arrayTryInto k (arrayLoop fp k i m [])).forget := by
+  rw [arrayTryInto_arrayLoop]; exact arrayLoopC_eq fc fp hf k i m []
+
+/-- The code after the loop: `MAX < MIN` (check) against `vec.len() < MIN` (parse).  The loop is
+left either because the range `0..MAX` is exhausted — then `vec.len() = idx = MAX` and the two
+tests are the same comparison — or by `break` in iteration `idx < MAX` with `MIN ≤ idx` — then
+`MIN ≤ vec.len()` and `MIN < MAX`, and neither test fires. -/
+theorem repDoneC_eq {α} (min : Nat) (max : Option Nat) (i : Inp) (m : M) (acc : List α) (idx : Nat)
+    (hlen : acc.length = idx)
+    (hexit : max = some idx ∨ (min ≤ idx ∧ ∀ mx, max = some mx → idx < mx)) :
+    repDoneC min max i m = (repDone min max i m acc).forget := by
+  unfold repDoneC repDone
+  cases max with
+  | none => rfl
+  | some mx =>
+    simp only []
+    rcases hexit with hfall | ⟨hmin, hlt⟩
+    · injection hfall with hfall
+      subst hfall; subst hlen
+      split <;> rfl
+    · have := hlt mx rfl
+      rw [if_neg (by omega), if_neg (by omega)]
+      rfl
+
+/-- `RepeatMin` / `RepeatMinMax`: the check loop against the parse loop.  Invariants of the
+Rust loops: `vec.len() = i`, and `i ≤ MAX` (both hold at entry, `i = 0`, `vec` empty). -/
+theorem repLoopC_eq {α} (uc : Nat → Inp → M → R Unit) (up : Nat → Inp → M → R α)
+    (hu : ∀ idx i m, uc idx i m = (up idx i m).forget) (min : Nat) (max : Option Nat) :
+    ∀ budget idx i m acc, acc.length = idx → (∀ mx, max = some mx → idx ≤ mx) →
+      repLoopC uc min max budget idx i m = (repLoop up min max budget idx i m acc).forget := by
+  intro budget
+  induction budget with
+  | zero => intros; rfl
+  | succ b ih =>
+    intro idx i m acc hlen hle
+    unfold repLoopC repLoop
+    by_cases hmax : max = some idx
+    · simp only [hmax, if_true]
+      exact repDoneC_eq min (some idx) i m acc idx hlen (Or.inl rfl)
+    · simp only [hmax, if_false]
+      have hlt : ∀ mx, max = some mx → idx < mx := by
+        intro mx h
+        have h1 := hle mx h
+        have h2 : idx ≠ mx := fun e => hmax (by rw [h, e])
+        omega
+      rw [hu]
+      cases up idx i m with
+      | oof => rfl
+      | fail m' =>
+        simp only [Res.forget_fail, restoreOnNone]
+        split
+        · rfl
+        · next hmin => exact repDoneC_eq min max i _ acc idx hlen (Or.inr ⟨by omega, hlt⟩)
+      | ok i' m' a =>
+        simp only [Res.forget_ok, restoreOnNone]
+        exact ih _ _ _ _ (by simp only [List.length_cons, hlen])
+          (fun mx h => by have := hlt mx h; omega)
+
+/-- At the loop entry. -/
+theorem repLoopC_eq0 {α} (uc : Nat → Inp → M → R Unit) (up : Nat → Inp → M → R α)
+    (hu : ∀ idx i m, uc idx i m = (up idx i m).forget) (min : Nat) (max : Option Nat)
+    (budget : Nat) (i : Inp) (m : M) :
+    repLoopC uc min max budget 0 i m = (repLoop up min max budget 0 i m []).forget :=
+  repLoopC_eq uc up hu min max budget 0 i m [] rfl (fun _ _ => Nat.zero_le _)
+
+/-- First iteration of `try_check_unit`: the test `i > 0` fails `SKIP` times. -/
+theorem repSkipC_zero (skip : Inp → M → R Unit) :
+    ∀ k i m, repSkipC skip 0 k i m = .ok i m () := by
+  intro k
+  induction k with
+  | zero => intros; rfl
+  | succ k ih => intro i m; unfold repSkipC; simp only [Nat.lt_irrefl, if_false, gt_iff_lt]; exact ih i m
+
+/-- Later iterations of `try_check_unit`: the skip loop of the sequence check path. -/
+theorem repSkipC_pos (skip : Inp → M → R Unit) (idx : Nat) (hidx : idx ≠ 0) :
+    ∀ k i m, repSkipC skip idx k i m = skipLoopC skip k i m := by
+  intro k
+  induction k with
+  | zero => intros; rfl
+  | succ k ih =>
+    intro i m
+    unfold repSkipC skipLoopC
+    rw [if_pos (Nat.pos_of_ne_zero hidx)]
+    cases skip i m with
+    | oof => rfl
+    | fail m' => rfl
+    | ok i' m' a => exact ih _ _
+
+/-- `try_check_unit` against `try_parse_unit`. -/
+theorem repUnitC_eq (sc bc : Inp → M → R Unit) (sp bp : Inp → M → R Val) (dflt : Val) (k : Nat)
+    (hs : ∀ i m, sc i m = (sp i m).forget) (hb : ∀ i m, bc i m = (bp i m).forget) :
+    ∀ idx i m, repUnitC sc bc k idx i m = (repUnitP sp bp dflt k idx i m).forget := by
+  intro idx i m
+  unfold repUnitC repUnitP
+  by_cases h0 : idx = 0
+  · subst h0
+    simp only [repSkipC_zero, if_true]
+    rw [hb]
+    cases bp i m <;> rfl
+  · simp only [h0, if_false]
+    rw [repSkipC_pos sc idx h0, skipLoopC_eq sc sp hs k i m []]
+    cases skipLoop sp k i m [] with
+    | oof => rfl
+    | fail m' => rfl
+    | ok i' m' sk =>
+      simp only [Res.forget_ok]
+      rw [hb]
+      cases bp i' m' <;> rfl
 
 end PestTyped
